@@ -2,6 +2,7 @@
 // sequences on a real HostPool through the public pool methods and the action / treatment
 // classes, all rasters printed after every operation.
 // Usage: h_host <mode> <seed> <first> <count>     modes: pool
+#include <pops/scheduling.hpp>
 #include "host_common.hpp"
 using namespace pops;
 using namespace verif;
@@ -132,6 +133,60 @@ static void pool_case(Case& c) {
     c.nontrivial = kinds >= 3 && h.suitable.size() >= 1;
 }
 
+// Treatments container: add_treatment (date -> step), clear_after_step, manage(step) for every step.
+static void treat_case(Case& c) {
+    Rng& rng = c.rng;
+    std::ostream& out = c.out;
+    static const int shapes[][2] = {{1, 1}, {1, 3}, {2, 2}, {3, 1}, {2, 3}};
+    int si = rng.in(0, 4);
+    int rows = shapes[si][0], cols = shapes[si][1];
+    bool sei = rng.coin(50);
+    int latency = sei ? rng.in(0, 2) : 0;
+    HostState h(rows, cols, sei ? latency + 1 : 0, rng.in(1, 3));
+    h.randomize(rng, sei);
+    Env env; Provider prov(rng.next());
+    Pool pool(sei ? ModelType::SusceptibleExposedInfected : ModelType::SusceptibleInfected, h.s, h.e, (unsigned)latency, h.i, h.te,
+              h.r, h.m, h.died, h.th, env, false, 1.0, false, 0.5, rows, cols, h.suitable);
+    static const int ys[] = {2019, 2020, 2023};
+    int unit = rng.in(0, 2);
+    unsigned num = unit == 0 ? (unsigned)rng.in(7, 28) : unit == 1 ? (unsigned)rng.in(1, 6) : (unsigned)rng.in(1, 2);
+    Date st(ys[rng.in(0, 2)], rng.coin(40) ? rng.in(10, 12) : rng.in(1, 12), unit == 2 ? 1 : rng.in(1, 28)); Date en(st); en.add_days((unsigned)rng.in(90, 420));
+    Scheduler sched(st, en, unit == 0 ? StepUnit::Day : unit == 1 ? StepUnit::Week : StepUnit::Month, num);
+    unsigned nsteps = sched.get_num_steps();
+    Treatments<Pool, DRaster> treatments(sched);
+    out << "hp.begin " << (sei ? "SEI" : "SI") << " " << latency << " " << rows << " " << cols << "\n";
+    out << "hp.state => " << h.snapshot() << "\n";
+    int nt = rng.in(1, 4);
+    std::ostringstream list;
+    int listed = 0;
+    for (int k = 0; k < nt; k++) {
+        DRaster map(rows, cols, 0.0); std::ostringstream cs;
+        for (int a = 0; a < rows; a++) for (int b = 0; b < cols; b++) { int k64 = rng.coin(25) ? 0 : (rng.coin(25) ? 64 : rng.in(1, 63)); map(a, b) = k64 / 64.0; cs << "," << rat64(k64); }
+        unsigned stp = (unsigned)rng.in(0, (int)nsteps - 1);
+        Date d = rng.coin(50) ? sched.get_step(stp).start_date() : sched.get_step(stp).end_date();
+        int days = rng.coin(45) ? 0 : rng.in(10, 150);
+        bool all = rng.coin(30);
+        std::string e = err_kind([&] { treatments.add_treatment(map, d, days, all ? TreatmentApplication::AllInfectedInCell : TreatmentApplication::Ratio); });
+        if (!e.empty()) { stats.add("treat_date_rejected"); continue; }
+        Date de(d); de.add_days((unsigned)days);
+        unsigned s0 = sched.schedule_action_date(d), s1 = days ? sched.schedule_action_date(de) : s0;
+        list << " " << (days ? "pesticide" : "simple") << ":" << (all ? "all_infected_in_cell" : "ratio") << ":" << s0 << ":" << s1 << cs.str();
+        listed++; stats.add(days ? "treat_pesticide" : "treat_simple");
+        if (days && s0 == s1) stats.add("treat_pesticide_same_step");
+    }
+    int clear_at = rng.coin(35) ? rng.in(0, (int)nsteps - 1) : -1;
+    out << "hp.treatlist " << clear_at << list.str() << " => ok\n";
+    if (clear_at >= 0) { treatments.clear_after_step((unsigned)clear_at); stats.add("treat_cleared"); }
+    for (unsigned step = 0; step < nsteps; step++) {
+        bool changed = false;
+        std::string e = err_kind([&] { changed = treatments.manage(step, pool); });
+        out << "hp.manage " << step << " => " << (e.empty() ? std::to_string((int)changed) : e) << " " << h.snapshot() << "\n";
+        if (!e.empty()) break;
+    }
+    stats.add("treat_steps", nsteps);
+    c.nontrivial = listed >= 1 && h.suitable.size() >= 1;
+}
+
 // SoilPool at a single cell: dispersers sent to the soil, released, aged.
 static void soil_case(Case& c) {
     Rng& rng = c.rng;
@@ -178,6 +233,7 @@ int main(int argc, char** argv) {
     if (!selftest_uniform()) { std::cerr << "SELFTEST FAILED: libstdc++ uniform_real_distribution does not consume one 64-bit value\n"; return 3; }
     if (mode == "pool") run_cases("h_host", mode, seed, first, count, pool_case);
     if (mode == "soil") run_cases("h_host", mode, seed, first, count, soil_case);
+    if (mode == "treat") run_cases("h_host", mode, seed, first, count, treat_case);
     stats.dump("h_host");
     return 0;
 }
